@@ -9,20 +9,22 @@ RULE = ("margin (L1, real SifchainApp, real margin+clp keepers and message serve
         "plus 1-3 of cethx, ceths, cethsif1, cusd, ceth/rowan, ceth/x, cETH, CETH: symbols that are byte prefixes of one another, a symbol "
         "that is another symbol plus the start of a bech32 address, the only separator a denom may contain, case variants; `_` is not a "
         "valid denom character) of "
-        "random depth (10^18..10^27 native, external/native ratio 10^-3..10^3) with random parameters (leverage max 1.5..10, safety factor "
+        "random depth (10^18..10^27 native, external/native ratio 10^-3..10^3) with random parameters (leverage max 1.5..10, pool-open threshold 0.1/0.5/0.9/0.93/0.99/1 at set-up and changed by MsgUpdateParams, safety factor "
         "0 (exactly), 10^-18, 0.5..1.6, epoch length 1..7, fund percentages 0..1, incremental payment on/off, max open positions 3 or 10000): Open (both "
         "collateral directions, amounts 0..3x pool depth, leverage 1..max+1, SHORT, unknown pool, both-native, both-non-native, same asset "
         "twice), Close (owner, outsider, unknown id), AdminClose/ForceClose (administrator and non-administrators, with/without fund cut), "
         "BeginBlocker every block (epoch boundaries with interest, liquidations), real clp Swap/AddLiquidity/RemoveLiquidity moving the "
         "price by up to 60% of depth, administrator parameter changes (including fund addresses set to a module account, safety factor "
         "1.5/2/10/100, the real MsgAdminCloseAll with and without the fund cut, either or both fund addresses left out of MsgUpdateParams = stored empty, fund percentages 0/0.1/0.5/1, all while positions "
-        "are open; the message is encoded, decoded, ValidateBasic'ed and sent through the message server), plus 11 directed histories per "
+        "are open; the message is encoded, decoded, ValidateBasic'ed and sent through the message server), plus 12 directed histories per "
         "run (the configurations of F14/F14b/F14c; all ten pools at once with positions on both sides of each, two epoch hooks, every "
         "position closed; safety factor exactly 0 with positions pushed below health 1.05 and 1 by a swap, then 10^-18, 1, 1.05, 100 at "
         "successive epoch hooks; two positions of opposite direction in one 10^24/10^24 pool, the earlier (address order) large and under "
         "water, the later 15x and below the safety factor before the hook but above it at its turn; four healthy positions per pool on both "
         "collateral sides, then the real MsgAdminCloseAll with the fund cut (safety factor 100) and MsgUpdateParams to 2 and 10: the hook "
-        "liquidates positions that still have value, collateral and fund share leave the module; interest fund address empty: hook, mid-epoch Close, AdminClose; force-close fund address empty: AdminClose "
+        "liquidates positions that still have value, collateral and fund share leave the module; pool-open threshold 0.93 with "
+        "leveraged opens locking the pool (a further open refused) and owner closes while it is locked, mid-epoch and at a boundary, "
+        "both collateral sides; interest fund address empty: hook, mid-epoch Close, AdminClose; force-close fund address empty: AdminClose "
         "with/without fund cut, liquidation).  After every operation: full state dump compared "
         "with the model (pools: 13 fields, positions: 13 fields, counters, 7 accounts x 3 denoms) and MarginOK judged on the "
         "implementation's dump per pool with exact symbol matching, and the backing identity of C01 restricted to this world (c01.marginbacking: for every "
